@@ -14,6 +14,7 @@ import (
 func init() {
 	vRegister("vC30_twoNodes", vC30_twoNodes)
 	vRegister("vC30_reactivation", vC30_reactivation)
+	vRegister("vC30_failedActivation", vC30_failedActivation)
 }
 
 // ---- fake cluster registry for grains: every operation is atomic (one mutex), as the real olric-backed one
@@ -69,6 +70,7 @@ func vC30_putIfAbsent(ctx context.Context, cl cluster.Cluster, g *internalpb.Gra
 
 var vC30_sysA, vC30_sysB *actorSystem
 var vC30_active [2]bool
+var vC30_rolledBack bool
 
 func vC30_nodeOf(x *actorSystem) int {
 	if x == vC30_sysB {
@@ -159,6 +161,60 @@ func vC30_reactivation() {
 	vRun()
 	if vAllDone() {
 		vCover("all-done")
+	}
+	vCover("end")
+}
+
+// one activation attempt whose OnActivate may fail: the REAL ownership decision, then the outcome as
+// finalizeGrainActivation leaves the registry (success: record published; failure: the claim is rolled back only when
+// THIS call made it)
+func vC30_attempt(x *actorSystem, id *GrainIdentity, process *grainPID, fail bool) bool {
+	n := vC30_nodeOf(x)
+	claimed, err := x.ensureGrainOwnership(context.Background(), id, process)
+	if err != nil {
+		return false
+	}
+	if fail {
+		if claimed {
+			reg := x.cluster.(*vC30Cluster).reg
+			reg.mu.Lock()
+			g := reg.grains["k:g"]
+			vAssert(g == nil || g.GetHost() == vC30_host(x), "the rollback of a failed activation never removes a registry record that names another node")
+			delete(reg.grains, "k:g")
+			reg.mu.Unlock()
+			vC30_rolledBack = true
+		}
+		return false
+	}
+	vC30_active[n] = true
+	w, _ := vC30_toWire(process)
+	_ = x.getCluster().PutGrain(context.Background(), w)
+	return true
+}
+
+// activations that may fail on either node; node B tries again after a failure. Nobody deactivates, so at the end the
+// registry must name the node that holds the grain (a failed activation must not take another node's record with it)
+func vC30_failedActivation() {
+	id, pa, pb := vC30_setup()
+	failA, failB := vNondetBool("failA"), vNondetBool("failB")
+	vC30_rolledBack = false
+	vGo("nodeA", func() { vC30_attempt(vC30_sysA, id, pa, failA) })
+	vGo("nodeB", func() {
+		if !vC30_attempt(vC30_sysB, id, pb, failB) {
+			vC30_attempt(vC30_sysB, id, pb, false)
+		}
+	})
+	vRun()
+	// (that two nodes can both end up active here when the owner record vanishes between a lost claim and the owner lookup
+	// is known finding C30-1: the rollback of a failed activation is a second way for the record to vanish; not re-asserted)
+	if vAllDone() {
+		vCover("all-done")
+		if vC30_rolledBack {
+			vCover("rolled-back")
+		}
+		if vC30_active[1] {
+			vCover("B-active")
+		}
 	}
 	vCover("end")
 }
